@@ -14,6 +14,14 @@ Rows and where they are documented:
   strings_vectors    char*/std::string/std::vector in/out/result (tools/gen/libgen.py rows)
   overloads_defaults overloaded functions and trailing default arguments
   enum_ns            enums and nested namespaces
+  fixed_width        a type that needs a header of its own (int8_t..uint64_t -> <stdint.h>/<cstdint>, size_t -> <stddef.h>) used in
+                     exactly ONE place of the library: element type of a std::vector, pointee of an array argument, scalar argument
+                     or result (docs/types.rst); the other functions use plain int/double only
+  class_result       functions and const methods that return a wrapped class (pointer, reference, value) and take native arguments,
+                     with and without +pure (docs/reference.rst pure; F_C_pure_clause / F_pure_clause)
+  namespace_helpers  a NOT flattened namespace (default F_flatten_namespace false) whose functions need C helpers of scope cwrap_impl
+                     (std::string / char* allocatable results, std::vector out / inout / result) while the library level has only
+                     plain scalar functions (or the other way round): the helpers of every module have to reach util<lib>
   struct_in_class    a struct (docs/structs.rst) declared in the library or in a namespace and used by free functions AND by methods
                      of a class of the same library / namespace (argument by pointer, reference, value; result): every wrapper
                      header that mentions the C copy of the struct has to include the header that defines it
@@ -29,9 +37,11 @@ import yaml
 
 from tools.gen import libgen
 
-FEATURES = ["struct_in_class", "assumed_rank", "fmodule_mix", "class_own_header", "class_cpp_if", "callback", "long_args", "long_types", "strings_vectors",
+FEATURES = ["fixed_width", "class_result", "namespace_helpers", "struct_in_class", "assumed_rank", "fmodule_mix", "class_own_header", "class_cpp_if", "callback", "long_args", "long_types", "strings_vectors",
             "overloads_defaults", "enum_ns"]
-CXX_ONLY = {"struct_in_class", "class_own_header", "class_cpp_if", "long_types", "strings_vectors", "overloads_defaults"}
+CXX_ONLY = {"class_result", "namespace_helpers", "struct_in_class", "class_own_header", "class_cpp_if", "long_types", "strings_vectors", "overloads_defaults"}
+
+SOLO = {"fixed_width", "namespace_helpers"}
 
 LONGWORDS = ["temperature", "pressure_gradient", "component_index", "number_of_values", "relative_tolerance",
              "boundary_condition_flag", "time_step_size", "state_vector_length", "iteration_counter", "scaling_factor"]
@@ -95,6 +105,53 @@ def f_fmodule_mix(r, idx, language="c++"):
     out.append({"decl": r.choice(["int *raw_result%d(double x) +deref(raw)", "void *opaque_result%d(int x)",
                                   "int *pointer_result%d(int n) +deref(pointer)+dimension(n)"]) % idx})
     return out, []
+
+
+FIXED = ["int8_t", "int16_t", "int32_t", "int64_t", "uint8_t", "uint16_t", "uint32_t", "uint64_t", "size_t"]
+
+
+def f_fixed_width(r, idx, language="c++"):
+    t = r.choice(FIXED)
+    shapes = ["void use_one%(i)d(const %(t)s *values +rank(1), int n)", "%(t)s get_one%(i)d(int k)", "void put_one%(i)d(%(t)s v)",
+              "void out_one%(i)d(%(t)s *v +intent(out))"]
+    if language != "c":
+        shapes += ["void register_ids%(i)d(const std::vector<%(t)s> &ids)", "void collect_ids%(i)d(std::vector<%(t)s> &ids +intent(out))",
+                   "void register_ids%(i)d(const std::vector<%(t)s> &ids)"]
+    only = r.choice(shapes) % {"i": idx, "t": t}
+    plain = [{"decl": "int last_count%d(void)" % idx if language == "c" else "int last_count%d()" % idx},
+             {"decl": "double scale_by%d(double factor, int times)" % idx}]
+    out = plain[:]
+    out.insert(r.randrange(0, 3), {"decl": only})
+    return out, []
+
+
+def f_class_result(r, idx):
+    cname = r.choice(["Node", "TreeBranch"]) + str(idx)
+    meths = [{"decl": "%s()" % cname}, {"decl": "~%s()" % cname}]
+    pool = ["%(c)s *child(int idx) const", "const %(c)s &peer(int a, double b) const", "%(c)s *parent() const",
+            "%(c)s *grow(int n)", "%(c)s *find(const char *name, int depth) const", "%(c)s *scaled(double f) const +pure",
+            "int depth(int from) const"]
+    for m in r.sample(pool, r.randrange(2, 5)):
+        meths.append({"decl": m % {"c": cname}})
+    free = [{"decl": "%s *make_node%d(int kind)" % (cname, idx)}]
+    if r.random() < 0.6:
+        free.append({"decl": "%s *lookup_node%d(int key, long hint) +pure" % (cname, idx)})
+    return [{"decl": "class %s" % cname, "declarations": meths}] + free, []
+
+
+def f_namespace_helpers(r, idx):
+    needy = ["const std::string name_of%(i)d(int i)", "void fill%(i)d(std::vector<int> &v +intent(out))",
+             "void grow%(i)d(std::vector<double> &v +intent(inout))", "std::vector<int> make%(i)d(int n)",
+             "const char *label%(i)d(int i)", "int *table%(i)d(int n) +dimension(n)+deref(allocatable)"]
+    plain = [{"decl": "int plain_sum%d(int a, int b)" % idx}, {"decl": "double plain_scale%d(double x)" % idx}]
+    ns_decls = [{"decl": d % {"i": idx}} for d in r.sample(needy, r.randrange(1, 3))]
+    where = r.choice(["namespace", "namespace", "library", "nested"])
+    if where == "library":      # the other way round: library needs it, namespace does not
+        return ns_decls + [{"decl": "namespace quiet%d" % idx, "declarations": plain}], []
+    if where == "nested":
+        return plain + [{"decl": "namespace outer_h%d" % idx, "declarations": [
+            {"decl": "int mid%d(int a)" % idx}, {"decl": "namespace inner_h%d" % idx, "declarations": ns_decls}]}], []
+    return plain + [{"decl": "namespace geo_h%d" % idx, "declarations": ns_decls}], []
 
 
 def f_struct_in_class(r, idx):
@@ -202,12 +259,13 @@ def gen(r, feature, language=None, allow_vector=True, name="flib"):
         language = "c++" if feature in CXX_ONLY else r.choice(["c", "c++"])
     feats = [feature]
     others = [f for f in FEATURES if f != feature and (language != "c" or f not in CXX_ONLY)]
-    feats += r.sample(others, r.randrange(0, 3))
+    if feature not in SOLO:       # these features are about what the REST of the library does not use
+        feats += r.sample([f for f in others if f not in SOLO], r.randrange(0, 3))
     decls, defines = [], []
     for i, f in enumerate(feats):
         if f == "strings_vectors":
             d, m = f_strings_vectors(r, i, allow_vector)
-        elif f in ("enum_ns", "fmodule_mix"):
+        elif f in ("enum_ns", "fmodule_mix", "fixed_width"):
             d, m = globals()["f_" + f](r, i, language)
         else:
             d, m = globals()["f_" + f](r, i)
